@@ -64,6 +64,14 @@ theorem size_modify (r : Root) (id : Id) (f : Node → Node) :
   · exact size_setNode ..
   · rfl
 
+/-- overwriting the same slot twice: the second write wins -/
+theorem setNode_setNode (r : Root) (id : Id) (a b : Node) :
+    (r.setNode id a).setNode id b = r.setNode id b := by
+  unfold Root.setNode
+  by_cases h : id < r.nodes.size
+  · simp [h]
+  · simp [h]
+
 end Dfs
 
 /-- the node with its `mark` forgotten -/
@@ -451,6 +459,21 @@ theorem dfsList_post {fuel : Nat} {r : Root} {buf : List Id} {cs : List Id} {r' 
     {buf' : List Id} (h : dfsList fuel r buf cs = some (r', buf')) :
     Post r buf r' buf' ∧ ∀ v ∈ cs, r.alive v = true → PermIn r' v :=
   (dfs_post_aux fuel).2 _ _ _ _ _ h
+
+/-- a successful `dfs` on a live unmarked node pushes that node last -/
+theorem dfs_last {fuel : Nat} {r : Root} {buf : List Id} {cur : Id} {r' : Root} {buf' : List Id}
+    {n : Node} (h : dfs fuel r buf cur = some (r', buf')) (hn : r.get? cur = some n)
+    (hm : n.mark = .none) : ∃ pre, buf' = pre ++ [cur] := by
+  cases fuel with
+  | zero => simp [dfs] at h
+  | succ fuel =>
+    rw [dfs] at h
+    simp only [hn, hm] at h
+    split at h
+    · cases h
+    · rename_i r2 buf2 _
+      cases h
+      exact ⟨buf2, rfl⟩
 
 /-! ### 4. the theorems -/
 
